@@ -70,6 +70,16 @@ def _table(ctx):
                 n += 1
                 _table_case(ctx, cls, allowed, combo, finished)
     rep.count('formats/format table cases', n, floor=800)
+    # formats outside allowed_formats are never considered, whatever the
+    # expected format is
+    for expected in ('iso', 'raw', 'qcow2', 'zz'):
+        for allowed in (('qcow2', 'vhd'), ('raw', 'qcow2'), ('iso',)):
+            for combo in (((True, True), (True, False), (True, True)),
+                          ((True, False), (True, False), (True, True)),
+                          ((True, False), (True, False), (True, False))):
+                n += 1
+                _table_case(ctx, cls, allowed, combo, True,
+                            expected=expected)
     # fault then decision: an inspector that failed still counts as a match
     for finished in (True,):
         _table_case(ctx, cls, None, ((True, True), (False, True),
@@ -80,16 +90,18 @@ def _table(ctx):
                     faults={'qcow2': {0: 'ValueError'}}, reads=1)
 
 
-def _table_case(ctx, cls, allowed, combo, finished, faults=None, reads=0):
+def _table_case(ctx, cls, allowed, combo, finished, faults=None, reads=0,
+                expected=None, rule='R3.1'):
     rep, world = ctx.report, ctx.world
     plans = {'raw': {'complete': (True,), 'match': (True,)}}
     for name, (c, m) in zip(NAMES[1:], combo):
         plans[name] = {'complete': (c,), 'match': (m,)}
         if faults and name in faults:
             plans[name]['fault'] = faults[name]
-    label = 'allowed=%s flags=%s finished=%s%s' % (
+    label = 'allowed=%s flags=%s finished=%s%s%s' % (
         allowed, dict(zip(NAMES[1:], combo)), finished,
-        ' faults=%s' % faults if faults else '')
+        ' faults=%s' % faults if faults else '',
+        ' expected_format=%s' % expected if expected else '')
     holder = {}
 
     def thunk(interp):
@@ -99,6 +111,8 @@ def _table_case(ctx, cls, allowed, combo, finished, faults=None, reads=0):
             kw = {}
             if allowed is not None:
                 kw['allowed_formats'] = ListV([K(a) for a in allowed])
+            if expected is not None:
+                kw['expected_format'] = K(expected)
             w = interp.call(cls, [src], kw)
             for _ in range(reads):
                 interp.call(interp.get_attr(w, 'read'), [K(512)])
@@ -118,7 +132,7 @@ def _table_case(ctx, cls, allowed, combo, finished, faults=None, reads=0):
     key = 'InspectWrapper.formats/format'
     notes = inexact_notes(outcomes)
     if notes or len(outcomes) != 1 or outcomes[0].kind != 'return':
-        rep.undecided('R3.1', key, '%s: %s %s' % (label, [
+        rep.undecided(rule, key, '%s: %s %s' % (label, [
             o.brief()[:80] for o in outcomes][:2], notes))
         return
     v = outcomes[0].value
@@ -158,7 +172,7 @@ def _table_case(ctx, cls, allowed, combo, finished, faults=None, reads=0):
     rep.case({'case': label, 'formats': str(gf), 'format': str(g1)},
              (str(allowed), combo, finished, str(gf), str(g1)))
     ok = gf == want_formats and g1 == want_format
-    rep.check('R3.1', key, ok,
+    rep.check(rule, key, ok,
               '%s: formats=%s format=%s; the property requires formats=%s '
               'format=%s' % (label, gf, g1, want_formats, want_format),
               case=label)
